@@ -144,6 +144,8 @@ type MonWAL struct {
 	Crashed     bool
 	OnCrash     func() // called once when the crash fires (under no lock)
 	Violations  []string
+	// EmptySnapshotInstalls counts received snapshots without payload (the state machine was empty at the leader)
+	EmptySnapshotInstalls int
 	// membership bookkeeping: the stored snapshot's member set and the membership-change entries durable after it
 	baseConf map[uint64]bool
 	confEnts map[uint64]raftpb.ConfChange
@@ -307,6 +309,9 @@ func (m *MonWAL) Save(hs raftpb.HardState, ents []raftpb.Entry, snap raftpb.Snap
 	kind := WriteHardState
 	if !etcdRaft.IsEmptySnap(snap) {
 		kind = WriteSnapshot
+		if len(snap.Data) == 0 {
+			m.EmptySnapshotInstalls++
+		}
 	} else if len(ents) > 0 {
 		kind = WriteEntries
 	}
@@ -434,6 +439,13 @@ func (m *MonWAL) EntryWrites() int {
 	m.mu.Lock()
 	defer m.mu.Unlock()
 	return m.DataEntries
+}
+
+// KindsCopy returns the kinds of the durable writes so far.
+func (m *MonWAL) KindsCopy() []string {
+	m.mu.Lock()
+	defer m.mu.Unlock()
+	return append([]string(nil), m.Kinds...)
 }
 
 // Kill makes the store refuse every further write (its process is dead).
